@@ -190,6 +190,7 @@ def _ref_geomdist(mjm, mjd, i):
   ds = sorted(ds)
   a, b = ds[0][1], ds[0][2]
   tp = "-".join(sorted([_GNAME[int(mjm.geom_type[a])], _GNAME[int(mjm.geom_type[b])]]))
+  _ref_geomdist.last_pair = (a, b)
   return ds[0][0], (ds[1][0] if len(ds) > 1 else np.inf), tp
 
 
@@ -581,6 +582,12 @@ def _compare(rec, C, i, got, ref):
     e, ok = judge(tol, 1.0)
     if ok:
       return
+    ga, gb = _ref_geomdist.last_pair
+    convex = not ({_GNAME[int(mjm.geom_type[ga])], _GNAME[int(mjm.geom_type[gb])]} <= {"sphere", "capsule", "plane"})
+    if t != int(S.mjSENS_GEOMDIST) and convex and d0 < -0.25 * min(float(mjm.geom_rbound[ga]), float(mjm.geom_rbound[gb])):
+      # deep convex penetration: the EPA normal / witness points are not reliable in any implementation (the rule C04 and C20 use); thorough tier saw a
+      # capsule 11 cm inside an ellipsoid with normals 0.6 degrees apart
+      return _skip(rec, "geomdist-deep-convex")
     return _fail(rec, C, i, got, ref, e, tol, why=f"(nearest pair {tp}, reference distance {d0:.5f})", sigx=f":{tp}")
 
   if t in VEL_T:
